@@ -15,7 +15,9 @@ var props = []*hx.Prop{
 	{ID: "C09", Run: runC09},
 	{ID: "C12", Run: runC12},
 	{ID: "C13", Run: runC13},
+	{ID: "C15", Run: runC15},
 	{ID: "C17", Run: gnssTime("C17", true)},
+	{ID: "C18", Run: runC18},
 }
 
 func TestVsim(t *testing.T) { hx.Main(t, props...) }
